@@ -247,6 +247,7 @@ def run_hypothesis(ctx, strategy, fn, max_examples, shrink=True, salt="", max_ro
 
 
 def _shard_main(modname, tier, seed, shard, nshards, scratch, time_budget, outpath):
+    ctx = None
     try:
         os.makedirs(scratch, exist_ok=True)
         mod = importlib.import_module(modname)
@@ -258,7 +259,8 @@ def _shard_main(modname, tier, seed, shard, nshards, scratch, time_budget, outpa
         res = ctx.result()
         res["ok"] = True
     except BaseException:
-        res = {"ok": False, "error": traceback.format_exc()}
+        # violations found before the harness broke are still reported
+        res = {"ok": False, "error": traceback.format_exc(), "violations": list(ctx.violations) if ctx is not None else []}
     with open(outpath, "w") as f:
         json.dump(res, f, default=repr)
     shutil.rmtree(scratch, ignore_errors=True)
@@ -359,6 +361,7 @@ def main(modname, tier, seed, nshards=None, time_budget=None):
             procs.append((p, out))
         results = []
         errors = []
+        partial = []
         for p, out in procs:
             p.join()
             if not os.path.exists(out):
@@ -368,11 +371,19 @@ def main(modname, tier, seed, nshards=None, time_budget=None):
                 r = json.load(f)
             if not r.get("ok"):
                 errors.append(r.get("error"))
+                partial += r.get("violations") or []
             else:
                 results.append(r)
         if errors:
             print("HARNESS ERROR in %d shard(s):\n%s" % (len(errors), errors[0]), file=sys.stderr)
-            return 2
+            found = viols + partial + [v for r in results for v in r["violations"]]
+            seen = set()
+            for v in found:
+                if v["signature"] not in seen:
+                    seen.add(v["signature"])
+                    print("VIOLATION property=%s replay=%s  # %s: %s" %
+                          (mod.PROP, v["replay"], v["signature"], v["detail"].replace("\n", " ")[:300]))
+            return 1 if found else 2
         ev = merge(mod, tier, seed, results, viols, ncorpus, time.time() - t0)
         with open(evpath, "w") as f:
             json.dump(ev, f, indent=1, default=repr)
